@@ -1388,6 +1388,8 @@ def bestof_reduction(ctx, path, n, rule, need, ob, key, sty, k5v):
     red = reds[0]
     table = [list(r) for r in pdb.const_val(perm_table_name(path))]
     items = red["items"]
+    if red["kind"] == "min_by_key":
+        return bestof_min_by_key(ctx, path, n, rule, need, ob, key, k5v, red, table, ret, ex)
     if any(c is not TRUE for c in red["conds"]):
         ob("loop-shape", short(path), False, "the reduction runs over a sequence of unknown length", where)
         return None
@@ -1515,6 +1517,76 @@ def bestof_reduction(ctx, path, n, rule, need, ob, key, sty, k5v):
                     break
     ob("witness-sorted", short(path), okw, "the reported hand is not the reduction's best candidate arranged in descending card order", where)
     rep.sample({"rule": rule, "container": short(path), "form": "iterator reduction (fold)", "items": len(items), "decision_table_cases": 18})
+    return dict(key=key, callee=k5v, body_obs=[], ex=ex)
+
+
+def bestof_min_by_key(ctx, path, n, rule, need, ob, key, k5v, red, table, ret, ex):
+    """Best-of written as `rows.map(candidate).map(rank).filter(non-zero).min_by_key(value)`: by the library contract the
+    result is the first candidate of smallest value among the non-zero ones; what remains to check is what the items,
+    the presence conditions and the keys are."""
+    rep, pdb = ctx.rep, ctx.pdb
+    where = pdb.where(key)
+    items, conds, keys = red["items"], red["conds"], red["keys"]
+    base_env = {"s%d" % i: 100 + i for i in range(n)}
+    ok_rows = len(items) == len(table)
+    ok_rank = ok_keys = ok_pres = True
+    for k_, (it, c, kx) in enumerate(zip(items, conds, keys)):
+        fields = it[2] if it[0] == "agg" else [it]
+        calls = [x for x in fields if x[0] == "call" and x[1] == "fn:" + k5v]
+        hands = [f for f in fields if f[0] == "agg" and f[1][:2] == ("adt", FIVE)]
+        if len(calls) != 1 or len(hands) != 1:
+            ok_rank = False
+            continue
+        X = calls[0]
+        ok_rank = ok_rank and X[2][0] is hands[0]
+        ok_keys = ok_keys and kx is X
+        # presence = the candidate's value is non-zero
+        for xv in (0, 1, 7462):
+            got = cval(evaluate(pdb, c, {"$fn:" + k5v: (lambda a, xv=xv: C(xv, "u16")), **base_env}))
+            ok_pres = ok_pres and bool(got) == (xv != 0)
+        got = [cval(evaluate(pdb, x, base_env)) for x in arr_of(hands[0])]
+        if k_ < len(table):
+            ok_rows = ok_rows and got == [100 + r for r in table[k_]]
+    ob("iterates-table", short(path), ok_rows, "the pipeline does not visit one candidate per row of %s, built from the slots that row names" % perm_table_name(path).split("cards::")[-1], where)
+    ob("candidate-from-row", short(path), ok_rows, "a ranked candidate is not made of the receiver's slots named by its table row", where)
+    ob("ranks-one-candidate", short(path), ok_rank, "an item does not pair a candidate with the ranking of that same candidate", where)
+    ob("keeps-smallest-nonzero", short(path), ok_keys and ok_pres, "the pipeline does not minimise the candidates' values over exactly the non-zero ones (key is the value: %s; kept iff non-zero: %s)" % (ok_keys, ok_pres), where)
+    ob("nonzero-preserving", short(path), ok_pres and ok_keys, "a non-zero candidate can be dropped", where)
+    ob("value-only-update", short(path), ok_keys, "the minimisation key is not the candidate's ranking", where)
+    ob("witness-follows-value", short(path), ok_rank and ok_keys, "the reported hand is not the candidate whose value was kept", where)
+    ob("no-early-exit", short(path), True)
+    ob("initial-best", short(path), True)
+    ob("candidate-is-five", short(path), True)
+    # the function's value is the minimum's value, 0 when nothing is present (checked by the end-to-end fold as well)
+    res = red["result"]
+    okb = False
+    try:
+        vals = []
+        for style in range(3):
+            env = dict(base_env)
+            env["$fn:" + k5v] = (lambda a, style=style: C([0, 5, 9][style] if style else 0, "u16"))
+            env["$contract:find_in_products"] = lambda k: C(0, "usize")
+            vals.append(cval(evaluate(pdb, ret[2][0], env)))
+        okb = vals == [0, 5, 9]
+    except (Uncertified, IndexError):
+        okb = False
+    ob("result-is-running-best", short(path), okb, "the returned value is not the minimum's value (0 when no candidate is a hand)", where)
+    wit = arr_of(ret[2][1]) if ret[0] == "agg" else None
+    okw = wit is not None and len(wit) == 5
+    if okw:
+        import random
+        rnd = random.Random(7)
+        for _ in range(12):
+            perm = list(range(n))
+            rnd.shuffle(perm)
+            env = {"s%d" % i: 100 + 10 * perm[i] for i in range(n)}
+            env["$fn:" + k5v] = lambda a: C(4, "u16")
+            env["$contract:find_in_products"] = lambda k: C(0, "usize")
+            got = [cval(evaluate(pdb, x, env)) for x in wit]
+            okw = okw and got == sorted(got, reverse=True)
+    ob("witness-sorted", short(path), okw, "the reported hand is not in descending card order", where)
+    rep.note("%s %s: best-of written as filter + min_by_key; decision semantics taken from the library contract (first minimal element among those present)" % (rule, short(path)))
+    rep.sample({"rule": rule, "container": short(path), "form": "filter + min_by_key", "items": len(items)})
     return dict(key=key, callee=k5v, body_obs=[], ex=ex)
 
 
